@@ -277,7 +277,7 @@ Section Proofs.
       + cbn. now rewrite (sr_add_0_r L).
       + pose proof (Forall_inv IH) as Hc. pose proof (Forall_inv_tail IH) as Hrest. cbn [snd] in Hc.
         specialize (IHch Hrest).
-        rewrite big_prod_cons. cbn [fst snd]. rewrite IHch. clear IHch.
+        rewrite big_prod_cons. rewrite IHch. clear IHch. cbn [fst snd].
         rewrite big_sum_flat_map.
         rewrite (big_sum_mul_r L). apply big_sum_ext; intros j _.
         rewrite big_sum_flat_map.
